@@ -200,14 +200,32 @@ fn ident(r: &mut Rng, prefix: &str) -> String {
 }
 
 fn distinct_types(r: &mut Rng, n: usize) -> Vec<String> {
-    let mut pool: Vec<&str> = PRIMS.to_vec();
+    let mut pool: Vec<String> = PRIMS.iter().map(|s| s.to_string()).collect();
+    // more than the table holds: wrap table entries (still pairwise distinct)
+    let mut w = 0;
+    while pool.len() < n {
+        let wrap = ["Vec < {} >", "Option < {} >", "Box < {} >", "& 'static {}"][w % 4];
+        for p in PRIMS.iter().take(20) {
+            pool.push(wrap.replace("{}", p));
+        }
+        w += 1;
+    }
     r.shuffle(&mut pool);
-    pool.into_iter().take(n).map(|s| s.to_string()).collect()
+    pool.into_iter().take(n).collect()
+}
+
+thread_local! {
+    /// size multiplier for the family generators (1 = normal, >1 = "big item" sessions)
+    pub static SCALE: std::cell::Cell<usize> = const { std::cell::Cell::new(1) };
+}
+fn scaled(r: &mut Rng, lo: usize, hi: usize) -> usize {
+    let k = SCALE.with(|s| s.get());
+    r.range(lo * k, hi * k)
 }
 
 /// `TryInto` enum with several distinct (ref-kind x field-type-tuple) groups.
 pub fn family_try_into(r: &mut Rng) -> Key {
-    let groups = r.range(3, 8);
+    let groups = scaled(r, 3, 8);
     let tys = distinct_types(r, groups);
     let mut variants = Vec::new();
     for (i, t) in tys.iter().enumerate() {
@@ -242,10 +260,12 @@ pub fn family_try_into(r: &mut Rng) -> Key {
 
 /// Field-less `FromStr` enum including case-colliding variant groups.
 pub fn family_from_str(r: &mut Rng) -> Key {
-    let n = r.range(4, 12);
+    let n = scaled(r, 4, 12);
     let mut names: Vec<String> = Vec::new();
-    while names.len() < n {
-        let base = ident(r, "");
+    let mut attempts = 0;
+    while names.len() < n && attempts < 10_000 {
+        attempts += 1;
+        let base = format!("{}{}", ident(r, ""), if attempts > 200 { attempts.to_string() } else { String::new() });
         let forms = [base.clone(), base.to_lowercase(), base.to_uppercase()];
         let k = if r.chance(1, 3) { r.range(2, 3) } else { 1 };
         for f in forms.iter().take(k) {
@@ -264,7 +284,7 @@ pub fn family_from_str(r: &mut Rng) -> Key {
 
 /// Multi-field struct for `Mul`-like / `MulAssign`-like (one where-predicate per distinct type).
 pub fn family_mul(r: &mut Rng) -> Key {
-    let n = r.range(3, 8);
+    let n = scaled(r, 3, 8);
     let generic = r.chance(1, 3);
     let mut tys = distinct_types(r, n);
     let mut gens = Vec::new();
@@ -306,7 +326,7 @@ pub fn family_mul(r: &mut Rng) -> Key {
 
 /// `Error` enum / struct with several distinct generic source types (where-predicates from a set).
 pub fn family_error(r: &mut Rng) -> Key {
-    let n = r.range(2, 5);
+    let n = scaled(r, 2, 5);
     let params: Vec<String> = (0..n).map(|i| format!("E{i}")).collect();
     let mut variants = Vec::new();
     for (i, p) in params.iter().enumerate() {
@@ -331,7 +351,7 @@ pub fn family_error(r: &mut Rng) -> Key {
 
 /// `From` / `Into` with explicit type lists.
 pub fn family_from_into(r: &mut Rng) -> Key {
-    let n = r.range(2, 6);
+    let n = scaled(r, 2, 6);
     let tys = distinct_types(r, n);
     let name = ident(r, "Fi");
     if r.chance(1, 2) {
@@ -356,7 +376,7 @@ pub fn family_from_into(r: &mut Rng) -> Key {
 
 /// Display / Debug with many generic parameters (bounds collected per placeholder).
 pub fn family_fmt(r: &mut Rng) -> Key {
-    let n = r.range(2, 6);
+    let n = scaled(r, 2, 6);
     let params: Vec<String> = (0..n).map(|i| format!("P{i}")).collect();
     let fields: Vec<String> = params.iter().enumerate().map(|(i, p)| format!("f{i} : {p}")).collect();
     let mut order: Vec<usize> = (0..n).collect();
